@@ -200,6 +200,7 @@ func (c *hctx) scanFields(s *hstruct) (used, mut map[string]bool) {
 				}
 			}
 		}
+		c.textScanFields(n, used, mut)
 		// calls and method values: x.M with x the receiver, or a struct-valued field of it
 		if sel, ok := n.(*ast.SelectorExpr); ok {
 			if o, ok := g.info.Uses[sel.Sel].(*types.Func); ok {
@@ -354,6 +355,11 @@ func (c *hctx) scanZeros() []string {
 						litNeeds(v, &hty{k: "struct", name: s.name, st: s, args: g.typeArgs(n, s)})
 					}
 				}
+				if g.tx != nil {
+					if t := g.typeOf(tv.Type, nil); t != nil && t.k == "elem" {
+						add(t.name) // T{} of an abstract value type (fn_heap_text.go)
+					}
+				}
 			}
 		}
 		var o *types.Func
@@ -455,6 +461,9 @@ func (c *hctx) constOf(e ast.Expr) (string, *hty, bool) {
 	if !ok || tv.Value == nil {
 		return "", nil, false
 	}
+	if s, t, ok := c.textConst(tv); ok {
+		return s, t, true
+	}
 	switch tv.Value.Kind() {
 	case constant.Int:
 		if n, exact := constant.Int64Val(tv.Value); exact {
@@ -493,6 +502,9 @@ func (c *hctx) expr(e ast.Expr, pre *[]hbind) (string, *hty) {
 				if t.k == "slice" {
 					return "[]", t
 				}
+				if s, ok := textNil(t); ok {
+					return s, t
+				}
 				return "None", &hty{k: "nil"}
 			}
 		}
@@ -505,10 +517,16 @@ func (c *hctx) expr(e ast.Expr, pre *[]hbind) (string, *hty) {
 		if c.isRecvIdent(v) {
 			c.lostAt(v, "the receiver %s used as a value (its fields are arguments)", v.Name)
 		}
+		if s, t, ok := c.textIdent(v); ok {
+			return s, t
+		}
 		c.lostAt(v, "identifier %s", v.Name)
 	case *ast.SelectorExpr:
 		sel := g.info.Selections[v]
 		if sel == nil {
+			if s, t, ok := c.textQualified(v); ok {
+				return s, t
+			}
 			c.lostAt(v, "selector %s", src(v))
 		}
 		switch sel.Kind() {
@@ -540,12 +558,18 @@ func (c *hctx) expr(e ast.Expr, pre *[]hbind) (string, *hty) {
 				}
 				return "(" + t.name + "_" + v.Sel.Name + " " + x + ")", c.fieldTypes(t)[i]
 			}
+			if s, ft, ok := c.textField(v, x, t, pre); ok {
+				return s, ft
+			}
 			c.lostAt(v, "selector %s", src(v))
 		case types.MethodExpr:
 			return c.methodExpr(v)
 		}
 		c.lostAt(v, "method value %s (only called, ranged over, or as (*T).M)", src(v))
 	case *ast.StarExpr:
+		if s, t, ok := c.textStar(v, pre); ok {
+			return s, t
+		}
 		c.lostAt(v, "dereference %s", src(v))
 	case *ast.UnaryExpr:
 		switch v.Op {
@@ -573,6 +597,9 @@ func (c *hctx) expr(e ast.Expr, pre *[]hbind) (string, *hty) {
 				return tm, t.elem
 			}
 		}
+		if s, t, ok := c.textIndex(v, pre); ok {
+			return s, t
+		}
 		c.lostAt(v, "index expression %s", src(v))
 	case *ast.CallExpr:
 		vals, ts := c.call(v, pre, nil)
@@ -582,6 +609,9 @@ func (c *hctx) expr(e ast.Expr, pre *[]hbind) (string, *hty) {
 		return vals[0], ts[0]
 	case *ast.CompositeLit:
 		t := c.typeOfExpr(v)
+		if s, ok := c.textCompositeLit(v, t); ok {
+			return s, t
+		}
 		if t.k == "hptr" && t.st.cell {
 			// an element {...} of a []*S literal: &S{...}, an allocation
 			rt := c.cellRecordType(t)
@@ -609,6 +639,9 @@ func (c *hctx) expr(e ast.Expr, pre *[]hbind) (string, *hty) {
 		c.lostAt(v, "composite literal %s", src(v.Type))
 	case *ast.FuncLit:
 		c.lostAt(v, "function literal (only as an argument for a callback parameter of a translated function)")
+	}
+	if s, t, ok := c.textExpr(e, pre); ok {
+		return s, t
 	}
 	c.lostAt(e, "expression %s", src(e))
 	return "", nil
@@ -660,6 +693,9 @@ func (c *hctx) structLit(v *ast.CompositeLit, t *hty, pre *[]hbind) string {
 // addrOf: &T{...} of a cell (allocation), &W.first (the embedded cell of a wrapper), &x of a local
 // value struct (the value: the pointer is the only reference to it from then on)
 func (c *hctx) addrOf(v *ast.UnaryExpr, pre *[]hbind) (string, *hty) {
+	if s, t, ok := c.textAddrOf(v, pre); ok {
+		return s, t
+	}
 	switch x := ast.Unparen(v.X).(type) {
 	case *ast.CompositeLit:
 		pt := c.typeOfExpr(v)
@@ -737,6 +773,9 @@ func (c *hctx) binary(v *ast.BinaryExpr, pre *[]hbind) (string, *hty) {
 	}
 	x, xt := c.expr(v.X, pre)
 	y, yt := c.expr(v.Y, pre)
+	if s, t, ok := c.textBinary(v, x, xt, y, yt); ok {
+		return s, t
+	}
 	num := xt.k == "int" && yt.k == "int"
 	rt := htInt
 	if xt.untyped && yt.untyped {
@@ -881,6 +920,9 @@ func (c *hctx) call(v *ast.CallExpr, pre *[]hbind, want []string) ([]string, []*
 		return c.callTranslated(cal, v.Fun, v.Args, v.Ellipsis.IsValid(), nil, v, pre, want)
 	}
 	if vals, ts, ok := c.callPkg(v, pre); ok {
+		return vals, ts
+	}
+	if vals, ts, ok := c.callText(v, pre); ok {
 		return vals, ts
 	}
 	switch f := ast.Unparen(v.Fun).(type) {
@@ -1032,6 +1074,11 @@ func (c *hctx) callTranslated(cal *hfunc, fun ast.Expr, args []ast.Expr, ellipsi
 	params := cal.params
 	sel, isSel := fun.(*ast.SelectorExpr)
 	isMethod := cal.obj.Type().(*types.Signature).Recv() != nil
+	if cal.recvParam && clo == nil && len(args) > 0 {
+		// f(r, ...) with the first parameter playing the receiver: as r.f(...)
+		sel, isSel, isMethod = &ast.SelectorExpr{X: args[0], Sel: cal.decl.Name}, true, true
+		args = args[1:]
+	}
 	if isMethod {
 		if !isSel {
 			c.lostAt(at, "call of the method %s", cal.spec)
@@ -1087,6 +1134,7 @@ func (c *hctx) callTranslated(cal *hfunc, fun ast.Expr, args []ast.Expr, ellipsi
 		c.lostAt(at, "call of %s (arity)", cal.name)
 	}
 	var statePats []string
+	var objPats []string // the objects handed to the callee: it hands them back (fn_heap_textcall.go)
 	litReadsHeap := false
 	ai := 0
 	for _, p := range params {
@@ -1156,6 +1204,20 @@ func (c *hctx) callTranslated(cal *hfunc, fun ast.Expr, args []ast.Expr, ellipsi
 		if yt.k == "struct" && yt.owned {
 			c.lostAt(a, "pointer %s to a value struct as an argument (aliasing)", src(a))
 		}
+		if p.v.typ.k == "obj" {
+			ov := c.objVar(a)
+			if ov == nil {
+				c.lostAt(a, "object %s as an argument (it must be held in a variable or a field of the receiver)", src(a))
+			}
+			if ov.role == "field" {
+				c.recvCheck(pre)
+			}
+			if cal.givenAway[p.goName] {
+				c.textExternObjArg(a, at) // the callee gives it away: it must not be used here afterwards
+			} else {
+				objPats = append(objPats, ov.name)
+			}
+		}
 		s += " " + paren(y)
 	}
 	if litReadsHeap && cal.writesHeap {
@@ -1211,6 +1273,10 @@ func (c *hctx) callTranslated(cal *hfunc, fun ast.Expr, args []ast.Expr, ellipsi
 		} else {
 			pat = append(pat, c.fields[f].name)
 		}
+	}
+	for _, op := range objPats {
+		pat = append(pat, op)
+		effect = true
 	}
 	for _, sp := range statePats {
 		pat = append(pat, sp)
